@@ -553,3 +553,100 @@ Proof.
   rewrite rev_length. replace (length tb + d - length tb) with d by lia.
   destruct cause as [c |]; [reflexivity |]. destruct context as [c |]; [reflexivity |]. now destruct d.
 Qed.
+
+(* ---------------------------------------------------------------------------------------- *)
+(* _validate_frames: shape of what it returns *)
+
+Definition is_pat (pf : pframe) : Prop := match pf with PPat _ => True | POpen => False end.
+
+(* [''] (the missing last frame) only ever comes out of the second place of a range *)
+Definition wf_selector (sel : selector) : Prop :=
+  match sel with
+  | SNone | SNum _ => True
+  | SList ps => Forall is_pat ps /\ ps <> []
+  | SRange p q => is_pat p
+  end.
+
+Lemma parse_frame_open is_range idx f :
+  parse_frame is_range idx f = Ok POpen -> idx = 1 /\ is_range = true.
+Proof.
+  unfold parse_frame.
+  repeat match goal with
+         | |- context [match ?x with _ => _ end] => destruct x eqn:?; try discriminate
+         | |- context [if ?x then _ else _] => destruct x eqn:?; try discriminate
+         end.
+  intros _. match goal with H : (_ && _)%bool = true |- _ => apply andb_prop in H; destruct H as [H1 H2] end.
+  apply Nat.eqb_eq in H1. now split.
+Qed.
+
+Lemma parse_frames_false_pats : forall l idx ps,
+  parse_frames false idx l = Ok ps -> Forall is_pat ps /\ length ps = length l.
+Proof.
+  induction l as [| f r IH]; intros idx ps; cbn [parse_frames].
+  - intros H. inversion H. split; [constructor | reflexivity].
+  - destruct (parse_frame false idx f) as [p |] eqn:Ep; cbn [bind]; [| discriminate].
+    destruct p as [p |].
+    + destruct (parse_frames false (S idx) r) as [ps' |] eqn:Er; cbn [bind]; [| discriminate].
+      intros H. inversion H. subst ps. destruct (IH _ _ Er) as [G1 G2]. split; [constructor; [exact I | exact G1] | cbn [length]; lia].
+    + apply parse_frame_open in Ep. destruct Ep; discriminate.
+Qed.
+
+Lemma validate_frames_str_wf s sel : validate_frames_str s = Ok sel -> wf_selector sel.
+Proof.
+  unfold validate_frames_str.
+  assert (HL : forall l, l <> [] -> forall sel, bind (parse_frames false 0 l) (fun ps => Ok (SList ps)) = Ok sel -> wf_selector sel).
+  { intros l Hl sel0. destruct (parse_frames false 0 l) as [ps |] eqn:Ep; cbn [bind]; [| discriminate].
+    intros H. inversion H. destruct (parse_frames_false_pats _ _ _ Ep) as [G1 G2]. split; [exact G1 |].
+    intros ->. destruct l; [congruence | discriminate]. }
+  destruct (map strip (split_on c_comma s)) as [| x [| y t]] eqn:Ec.
+  - intros H. cbn [parse_frames bind] in H. inversion H. subst sel.
+    exfalso. apply (split_on_nonempty c_comma s). now destruct (split_on c_comma s).
+  - destruct (map strip (split_dd s)) as [| a [| b [| c t]]]; try discriminate.
+    + apply HL. discriminate.
+    + cbn [parse_frames]. destruct (parse_frame true 0 a) as [p |] eqn:Ea; cbn [bind]; [| discriminate].
+      destruct p as [p |].
+      * destruct (parse_frame true 1 b) as [q |]; cbn [bind]; [| discriminate].
+        destruct q; cbn [bind]; intros H; inversion H; exact I.
+      * apply parse_frame_open in Ea. destruct Ea; discriminate.
+  - apply HL. discriminate.
+Qed.
+
+Theorem validate_frames_wf script a sel : validate_frames script a = Ok sel -> wf_selector sel.
+Proof.
+  destruct a as [| z | s | l]; cbn [validate_frames].
+  - intros H. inversion H. exact I.
+  - intros H. inversion H. exact I.
+  - destruct (py_int s); [intros H; inversion H; exact I |].
+    destruct (mem_ch c_comma s && negb script); [discriminate | apply validate_frames_str_wf].
+  - destruct (existsb (mem_ch c_comma) l); [discriminate | apply validate_frames_str_wf].
+Qed.
+
+(* the model's "oracle missing" value is never produced by validation *)
+Theorem validate_frames_no_oracle_error script a : validate_frames script a <> Err EOracle.
+Proof.
+  assert (P : forall r idx f, parse_frame r idx f <> Err EOracle).
+  { intros r idx f. unfold parse_frame.
+    repeat match goal with
+           | |- context [match ?x with _ => _ end] => destruct x eqn:?; try discriminate
+           | |- context [if ?x then _ else _] => destruct x eqn:?; try discriminate
+           end. }
+  assert (Q : forall r l idx, parse_frames r idx l <> Err EOracle).
+  { intros r l. induction l as [| f t IH]; intros idx; cbn [parse_frames]; [discriminate |].
+    destruct (parse_frame r idx f) as [p |] eqn:Ep; cbn [bind]; [| intros H; apply (P r idx f); congruence].
+    destruct p; [| discriminate].
+    destruct (parse_frames r (S idx) t) eqn:Et; cbn [bind]; [discriminate | intros H; apply (IH (S idx)); congruence]. }
+  assert (R : forall s, validate_frames_str s <> Err EOracle).
+  { intros s. unfold validate_frames_str.
+    assert (HL : forall l, bind (parse_frames false 0 l) (fun ps => Ok (SList ps)) <> Err EOracle).
+    { intros l. destruct (parse_frames false 0 l) eqn:E; cbn [bind]; [discriminate | intros H; apply (Q false l 0); congruence]. }
+    destruct (map strip (split_on c_comma s)) as [| x [| y t]]; [apply HL | | apply HL].
+    destruct (map strip (split_dd s)) as [| a0 [| b [| c t]]]; try discriminate; [apply HL |].
+    cbn [parse_frames]. destruct (parse_frame true 0 a0) as [p |] eqn:Ea; cbn [bind]; [| intros H; apply (P true 0 a0); congruence].
+    destruct p as [p |].
+    - destruct (parse_frame true 1 b) as [q |] eqn:Eb; cbn [bind]; [| intros H; apply (P true 1 b); congruence].
+      destruct q; cbn [bind]; discriminate.
+    - apply parse_frame_open in Ea. destruct Ea; discriminate. }
+  destruct a as [| z | s | l]; cbn [validate_frames]; try discriminate.
+  - destruct (py_int s); [discriminate |]. destruct (mem_ch c_comma s && negb script); [discriminate | apply R].
+  - destruct (existsb (mem_ch c_comma) l); [discriminate | apply R].
+Qed.
